@@ -497,6 +497,22 @@ def _typeahead_table(prog, chk):
         if got:
             bad.append('`a < b <%s> c > d` is read as `Type<…> name`' % K)
     chk.count('non-type token kinds tried inside `<…>`', nfam, 40)
+    # declarations that must still be recognised, with every kind of type token in the argument list (positive side of the family)
+    decls = ['Identifier Less %s Greater Identifier Semicolon' % t for t in ('Int', 'Float', 'Long', 'Char', 'String', 'Bit', 'Qubit', 'Boolean', 'Identifier')] + \
+            ['Identifier Less Identifier Dot Identifier Greater Identifier Semicolon', 'Identifier Less Int LBracket RBracket Greater Identifier Semicolon',
+             'Identifier Less Identifier Less Identifier Comma Int Greater Comma Identifier Greater Identifier Equals',
+             'Identifier Less Int LBracket IntegerLiteral RBracket Greater Identifier Semicolon']
+    for d_ in decls:
+        names = d_.split()
+        n += 1
+        this = Obj(m_tokens=[Obj(type=TT + t, value='', line=1, column=1) for t in names] + [Obj(type=TT + 'Eof', value='', line=1, column=1)], m_current=0)
+        try:
+            got = Interp(prog, {}, max_steps=20000).call_fn_env(ta, [], {'this': this})
+        except (OutOfRange, Unsupported) as ex:
+            bad.append('%s: %s' % (d_, ex))
+            continue
+        if not got:
+            bad.append('`%s` (a declaration) is classified as an expression' % d_)
     if getattr(chk, 'tier', 'quick') == 'thorough':
         # thorough tier: the same family in more surroundings — the non-type token at every position of a nested argument list
         # (`a < b < c K > > d`, `a < K b > c`, `a < b , K c > d`, `a < b [ K ] > d`), and declarations that must still be recognised
@@ -523,21 +539,6 @@ def _typeahead_table(prog, chk):
                     raise AnalysisBroken('abstract evaluation of the declaration look-ahead: %s' % ex)
                 if bool(got) != want:
                     bad.append('`%s` is classified as %s' % (' '.join(names), 'a declaration' if got else 'an expression'))
-        decls = ['Identifier Less %s Greater Identifier Semicolon' % t for t in ('Int', 'Float', 'Long', 'Char', 'String', 'Bit', 'Qubit', 'Boolean', 'Identifier')] + \
-                ['Identifier Less Identifier Dot Identifier Greater Identifier Semicolon', 'Identifier Less Int LBracket RBracket Greater Identifier Semicolon',
-                 'Identifier Less Identifier Less Identifier Comma Int Greater Comma Identifier Greater Identifier Equals',
-                 'Identifier Less Int LBracket IntegerLiteral RBracket Greater Identifier Semicolon']
-        for d_ in decls:
-            names = d_.split()
-            nth += 1
-            this = Obj(m_tokens=[Obj(type=TT + t, value='', line=1, column=1) for t in names] + [Obj(type=TT + 'Eof', value='', line=1, column=1)], m_current=0)
-            try:
-                got = Interp(prog, {}, max_steps=20000).call_fn_env(ta, [], {'this': this})
-            except (OutOfRange, Unsupported) as ex:
-                bad.append('%s: %s' % (d_, ex))
-                continue
-            if not got:
-                bad.append('`%s` (a declaration) is classified as an expression' % d_)
         n += nth
         chk.extra['typeahead_thorough_patterns'] = nth
     chk.extra['typeahead_patterns'] = n
